@@ -37,6 +37,31 @@ def be (bs : Bytes) : Nat := bs.foldl (fun a b => a * 256 + b) 0
 def take? (n : Nat) (s : Bytes) : Option (Bytes × Bytes) :=
   if n ≤ s.length then some (s.take n, s.drop n) else none
 
+/-- `take?` without measuring the whole remaining stream (the compiled checker uses this one: reading a record of
+    65535 entries field by field is otherwise quadratic); proved equal to `take?` below -/
+def takeGo : Nat → Bytes → Bytes → Option (Bytes × Bytes)
+  | 0, acc, s => some (acc.reverse, s)
+  | _ + 1, _, [] => none
+  | n + 1, acc, x :: xs => takeGo n (x :: acc) xs
+
+theorem takeGo_eq (n : Nat) : ∀ (acc s : Bytes),
+    takeGo n acc s = if n ≤ s.length then some (acc.reverse ++ s.take n, s.drop n) else none := by
+  induction n with
+  | zero => intro acc s; simp [takeGo]
+  | succ n ih =>
+    intro acc s
+    cases s with
+    | nil => simp [takeGo]
+    | cons x xs =>
+      simp only [takeGo, ih, List.length_cons, Nat.add_le_add_iff_right, List.reverse_cons, List.take_succ_cons,
+        List.drop_succ_cons, List.append_assoc, List.singleton_append]
+
+def takeFast? (n : Nat) (s : Bytes) : Option (Bytes × Bytes) := takeGo n [] s
+
+@[csimp] theorem take?_eq_takeFast : @take? = @takeFast? := by
+  funext n s
+  simp [take?, takeFast?, takeGo_eq]
+
 def firstFail : List (Bool × String) → Option String
   | [] => none
   | (true, _) :: r => firstFail r
